@@ -157,12 +157,17 @@ def labels_ok(ci, n):
         return False
 
 
-def close(q, Q):
+def close(q, Q, tol=None):
     try:
         q = float(q)
     except Exception:  # noqa
         return False
-    return q == q and abs(q - float(Q)) <= TOL * max(1.0, abs(float(Q)))
+    return q == q and abs(q - float(Q)) <= (tol or TOL) * max(1.0, abs(float(Q)))
+
+
+def case_tol(case):
+    """float32 storage: "floating-point accuracy" is single precision"""
+    return 1e-5 if case.get('variant') == 'float32' else TOL
 
 
 def is_sym(W):
@@ -206,13 +211,18 @@ def trace_moves(bct, case, hierarchy=False, t=10.0):
     code, lines = _move_lines(getattr(bct, case['routine']))
     if not lines:
         raise RuntimeError('no statement of the form `ci[u] = mb + 1` found in %s: the source was renamed, moves cannot be traced' % case['routine'])
-    rec = Rec2(case['seed'])
+    hold = {'rec': None}
     moves = []
+
+    def new_rec():
+        hold['rec'] = Rec2(case['seed'])
+        del moves[:]                      # a re-tried attempt starts over
+        return hold['rec']
 
     def local(frame, event, arg):
         if event == 'line' and frame.f_lineno in lines:
             uv, tv = lines[frame.f_lineno]
-            moves.append((rec.nperm, int(frame.f_locals[uv]), int(frame.f_locals[tv])))
+            moves.append((hold['rec'].nperm, int(frame.f_locals[uv]), int(frame.f_locals[tv])))
         return local
 
     def tracer(frame, event, arg):
@@ -220,7 +230,7 @@ def trace_moves(bct, case, hierarchy=False, t=10.0):
 
     sys.settrace(tracer)
     try:
-        st, out, _ = invoke(bct, case, case['seed'], case.get('ci0'), hierarchy=hierarchy, t=t, rec=rec)
+        st, out, _ = invoke(bct, case, case['seed'], case.get('ci0'), hierarchy=hierarchy, t=t, new_rec=new_rec)
     finally:
         sys.settrace(None)
     return st, out, moves
@@ -255,6 +265,8 @@ def trace_spectral(bct, case, t=10.0):
     def tracer(frame, event, arg):
         c = frame.f_code
         if c.co_name == 'recur' and c.co_filename.endswith('modularity.py'):
+            if frame.f_back is None or frame.f_back.f_code.co_name != 'recur':
+                del dec[:]                # the root call: a re-tried attempt starts over
             dec.append(None)
             return make(len(dec) - 1)
         return None
@@ -267,39 +279,47 @@ def trace_spectral(bct, case, t=10.0):
     return st, out, rec, dec
 
 
-def invoke(bct, case, seed, ci0, hierarchy=False, t=6.0, rec=None, retry=None):
+def invoke(bct, case, seed, ci0, hierarchy=False, t=6.0, rec=None, retry=None, new_rec=None):
+    """one watched call of the routine of `case`.  A timeout of an in-domain call is re-tried once with 10x the budget - with a
+    FRESH recorder and fresh argument arrays, so that the second attempt is the same run (same draws) and not a continuation."""
+    if retry is None:
+        # in-domain calls are expected to return; the malformed stream may legitimately spin, no retry there
+        retry = 0 if case.get('malformed') else 10
+    st, out, rc = _invoke_once(bct, case, seed, ci0, hierarchy, t, rec if rec is not None else (new_rec() if new_rec else Rec2(seed)))
+    if st == 'timeout' and retry:
+        st, out, rc = _invoke_once(bct, case, seed, ci0, hierarchy, t * retry, new_rec() if new_rec else Rec2(seed))
+    return st, out, rc
+
+
+def _invoke_once(bct, case, seed, ci0, hierarchy, t, rec):
     r = case['routine']; A = np.array(case['W'], dtype=float); g = float(Fr(case['gamma']))
     if case.get('scale'):
         A = A * 2.0 ** case['scale']          # exact: power of two
-    if case.get('variant') == 'int64':
-        A = np.array(case['W'], dtype=np.int64)
-    elif case.get('variant') == 'fortran':
+    v = case.get('variant')
+    if v == 'fortran':
         A = np.asfortranarray(A)
-    rec = rec if rec is not None else Rec2(seed)
-    if retry is None:
-        # in-domain calls are expected to return: one wall-clock hit is re-tried with 10x the budget before it counts;
-        # the malformed stream may legitimately spin, no retry there
-        retry = 0 if case.get('malformed') else 10
+    elif v in DTYPES:
+        A = np.array(case['W'], dtype=DTYPES[v])     # storage type of the caller's matrix
     ci = None if ci0 is None else np.array(ci0, dtype=int)
     f = getattr(bct, r)
     if r == 'community_louvain':
         o = case['opt']
         B = o if o != 'custom' else [[float(Fr(x)) for x in row] for row in case['B']]
-        st, out = call(f, A, gamma=g, ci=ci, B=B, seed=rec, t=t, retry=retry)
+        st, out = call(f, A, gamma=g, ci=ci, B=B, seed=rec, t=t)
     elif r in ('modularity_louvain_und', 'modularity_louvain_dir'):
-        st, out = call(f, A, gamma=g, hierarchy=hierarchy, seed=rec, t=t, retry=retry)
+        st, out = call(f, A, gamma=g, hierarchy=hierarchy, seed=rec, t=t)
     elif r == 'modularity_louvain_und_sign':
-        st, out = call(f, A, gamma=g, qtype=case['opt'], seed=rec, t=t, retry=retry)
+        st, out = call(f, A, gamma=g, qtype=case['opt'], seed=rec, t=t)
     elif r in ('modularity_finetune_und', 'modularity_finetune_dir'):
-        st, out = call(f, A, ci=ci, gamma=g, seed=rec, t=t, retry=retry)
+        st, out = call(f, A, ci=ci, gamma=g, seed=rec, t=t)
     elif r == 'modularity_finetune_und_sign':
-        st, out = call(f, A, qtype=case['opt'], gamma=g, ci=ci, seed=rec, t=t, retry=retry)
+        st, out = call(f, A, qtype=case['opt'], gamma=g, ci=ci, seed=rec, t=t)
     elif r == 'modularity_probtune_und_sign':
-        st, out = call(f, A, qtype=case['opt'], gamma=g, ci=ci, p=float(Fr(case['p'])), seed=rec, t=t, retry=retry)
+        st, out = call(f, A, qtype=case['opt'], gamma=g, ci=ci, p=float(Fr(case['p'])), seed=rec, t=t)
     elif r in ('modularity_und', 'modularity_dir'):
-        st, out = call(f, A, gamma=g, kci=ci, t=t, retry=retry)
+        st, out = call(f, A, gamma=g, kci=ci, t=t)
     elif r == 'modularity_und_sign':
-        st, out = call(f, A, ci, qtype=case['opt'], t=t, retry=retry)
+        st, out = call(f, A, ci, qtype=case['opt'], t=t)
     else:
         raise ValueError(r)
     return st, out, rec
@@ -311,6 +331,11 @@ def _levels(out, hierarchy):
         ci = np.asarray(ci)
         return [(ci[h].tolist(), float(q[h])) for h in range(len(q))]
     return [(np.asarray(ci).tolist(), float(q))]
+
+
+def is_sentinel(ci, q):
+    """the (singletons, -1) placeholder of the Louvain routines handed back as a result"""
+    return float(q) == -1.0 and [int(x) for x in ci] == list(range(1, len(ci) + 1))
 
 
 def cond_of(case, level=None, nlevels=None):
@@ -387,7 +412,7 @@ def run_case(case):
                 F.append(('given-partition-labels', {'returned': ci, 'given': ci0}, cond_of(case)))
             Q = true_q(case, ci0)
             Qs.append(Q)
-            if not close(q, Q):
+            if not close(q, Q, case_tol(case)):
                 F.append(('given-partition-q', {'q': q, 'Q': float(Q), 'Q_exact': str(Q), 'ci': ci0}, cond_of(case)))
             continue
         if not labels_ok(ci, n):
@@ -397,7 +422,7 @@ def run_case(case):
         ci = [int(x) for x in ci]
         Q = true_q(case, ci)
         Qs.append(Q)
-        if not close(q, Q):
+        if not close(q, Q, case_tol(case)):
             F.append(('q-equals-Q', {'q': q, 'Q': float(Q), 'Q_exact': str(Q), 'ci': ci, 'level': h, 'levels': len(levels)},
                       cond_of(case, h)))
     res['Qs'] = [None if x is None else str(x) for x in Qs]
@@ -411,9 +436,11 @@ def run_case(case):
                 F.append(('labels-1..k', {'ci': ci, 'plain': True}, cond_of(case, len(levels))))
             else:
                 Q = true_q(case, [int(x) for x in ci])
-                if not close(q, Q):
-                    F.append(('q-equals-Q', {'q': q, 'Q': float(Q), 'ci': ci, 'plain': True, 'levels': len(levels)},
-                              cond_of(case, len(levels))))
+                if not close(q, Q, case_tol(case)):
+                    cd = cond_of(case, len(levels))
+                    if is_sentinel(ci, q):
+                        cd['sentinel_returned'] = True     # the routine handed back its (singletons, -1) placeholder
+                    F.append(('q-equals-Q', {'q': q, 'Q': float(Q), 'ci': ci, 'plain': True, 'levels': len(levels)}, cd))
         elif st2 == 'exc':
             F.append(('raises', {'exception': out2, 'plain': True}, cond_of(case)))
         else:
@@ -448,7 +475,7 @@ def run_case(case):
                     if Q3 < top - Fr(1, 10 ** 9) * max(1, abs(top)):
                         F.append(('feedback-not-lower', {'Q_first': float(top), 'Q_second': float(Q3), 'first': levels[-1][0], 'second': ci3},
                                   cond_of(case)))
-                    if not close(q3, Q3):
+                    if not close(q3, Q3, case_tol(case)):
                         F.append(('q-equals-Q', {'q': q3, 'Q': float(Q3), 'ci': ci3, 'feedback': True, 'level': 1}, cond_of(case, 1)))
                 else:
                     F.append(('labels-1..k', {'ci': ci3, 'feedback': True}, cond_of(case, 1)))
@@ -639,7 +666,9 @@ WITNESSES = [
 
 
 CROSS_GAMMAS = ['3/4', '4/5', '6/5', '5/4', '13/10']
+DTYPES = {'bool': np.bool_, 'uint8': np.uint8, 'int32': np.int32, 'int64': np.int64, 'float32': np.float32}
 SCALES = [-30, -40, 20]     # W is multiplied by 2**e
+OFFGRID_GAMMAS = ['0', '1/2', '2', '3', '10']
 
 
 def cross_sources(r, opt):
@@ -683,11 +712,17 @@ def gen_cases(rs, tier, routines=None):
         c = {'routine': routine, 'W': W, 'gamma': kw.pop('gamma', None) or gam(), 'opt': opt, 'ci0': ci0, 'seed': rnd_seed()}
         c.update(kw)
         u = rs.rand()
-        if not c.get('scale') and not c.get('malformed'):
-            if u < .06:
-                c['variant'] = 'int64'        # integer dtype input
-            elif u < .12:
-                c['variant'] = 'fortran'      # column-major memory order
+        if not c.get('scale') and not c.get('malformed') and u < .24:
+            # storage axis: the same values as bool / uint8 / int32 / int64 / float32 / Fortran-ordered float64
+            Aw = np.asarray(W)
+            allowed = ['int32', 'int64', 'float32', 'fortran']
+            if Aw.min() >= 0:
+                allowed.append('uint8')
+                if Aw.max() <= 1:
+                    allowed += ['bool', 'bool']
+            if routine == 'modularity_louvain_dir':
+                allowed.remove('float32')      # its open finding D6 is accepted only through the exact replay, which single precision has not
+            c['variant'] = allowed[int(u / .24 * len(allowed)) % len(allowed)]
         cases.append(c)
 
     def graph_for(routine, n, opt=None):
@@ -698,7 +733,12 @@ def gen_cases(rs, tier, routines=None):
             u = rs.rand()
             return g_dir_adversarial(rs, n, wmax) if u < .45 else (g_dir(rs, n, dens, wmax, loops) if u < .8 else g_und(rs, n, dens, wmax, loops))
         if routine in SIGN:
-            return g_sign(rs, n, max(dens, .4), max(wmax, 1))
+            A = g_sign(rs, n, max(dens, .4), max(wmax, 1))
+            if loops:
+                for i in range(n):
+                    if rs.rand() < .3:
+                        A[i, i] = int(rs.choice([-1, 1])) * rs.randint(1, max(wmax, 1) + 1)
+            return A
         if opt == 'potts':
             return g_dir(rs, n, dens, 1) if rs.rand() < .4 else g_und(rs, n, dens, 1)
         if opt in ('negative_sym', 'negative_asym'):
@@ -851,6 +891,58 @@ def gen_cases(rs, tier, routines=None):
                     continue
                 k = int(rs.randint(1, n + 1))
                 add(r, A, opt, encode_partition(rs, _rg_canon(rs.randint(0, k, size=n).tolist())), gamma=('1' if r == 'modularity_und_sign' else None), scale=e)
+    # (k) the corners of the quantifier: symmetric / directed networks with NEGATIVE entries but positive total weight for the
+    #     routines that have no negativity test (everything except community_louvain), n = 1 and n = 2, gamma far from 1
+    for (r, opt) in variants:
+        for _ in range(14 if not big else 120):
+            mode = int(rs.randint(3))
+            g = str(rs.choice(OFFGRID_GAMMAS)) if rs.rand() < .7 else gam()
+            if mode == 0 and (r in UND or r in DIR):
+                n = int(rs.randint(3, 9))
+                A = rand_graph(rs, n, float(rs.choice([.5, .8])), r in DIR, int(rs.choice([3, 9])), signed=True)
+                if A.sum() < 0:
+                    A = -A
+                if A.sum() <= 0:
+                    continue
+            else:
+                n = int(rs.choice([1, 2, 2]))
+                if r in SIGN or opt in ('negative_sym', 'negative_asym'):
+                    A = np.zeros((n, n)); 
+                    if n == 2:
+                        A[0, 1] = A[1, 0] = int(rs.choice([-2, 1, 3]))
+                    if rs.rand() < .5 or n == 1:
+                        A[0, 0] = int(rs.choice([1, 2]))
+                elif opt == 'potts':
+                    A = np.ones((n, n)) - (np.eye(n) if rs.rand() < .5 else 0)
+                else:
+                    A = rs.randint(0, 4, size=(n, n)).astype(float)
+                    if r in UND or rs.rand() < .5:
+                        A = np.triu(A) + np.triu(A, 1).T
+                if not valid(r, A, opt):
+                    continue
+            extra = {'B': custom_B(n)} if opt == 'custom' else {}
+            if r == 'modularity_probtune_und_sign':
+                extra['p'] = '1/4'
+            ci0 = None
+            if r in TAKES_CI and rs.rand() < .6:
+                ci0 = encode_partition(rs, _rg_canon(rs.randint(0, max(1, n), size=n).tolist()))
+            add(r, A, opt, ci0, gamma=g, **extra)
+    for r in GIVEN:
+        if routines and r not in routines:
+            continue
+        for _ in range(10 if not big else 80):
+            n = int(rs.choice([1, 2, 4, 6])); opt = QTYPES[rs.randint(5)] if r == 'modularity_und_sign' else None
+            A = rand_graph(rs, n, .8, r in DIR, 5, signed=True) if n > 2 else rs.randint(0, 4, size=(n, n)).astype(float)
+            if r not in DIR:
+                A = np.triu(A) + np.triu(A, 1).T
+            if A.sum() < 0:
+                A = -A
+            if (A.sum() <= 0) if r not in SIGN else (not np.any(A != 0)):
+                continue
+            g = '1' if r == 'modularity_und_sign' else str(rs.choice(OFFGRID_GAMMAS))
+            add(r, A, opt, encode_partition(rs, _rg_canon(rs.randint(0, max(1, n), size=n).tolist())), gamma=g)
+            if r != 'modularity_und_sign':
+                add(r, A, opt, None, gamma=g)
     # (c) modularity_und/_dir/_und_sign with a given partition, and their own spectral partition (kci=None)
     if not routines or any(g in routines for g in GIVEN):
         for r in GIVEN:
@@ -1153,15 +1245,18 @@ def run_driver_par(main, lines, procs=10):
 
 def run_check(ck, preds):
     pid = ck.pid
-    ck.cov['rule'] = ('cases = (routine, objective/qtype, integer weight matrix, gamma in {3/4,1,5/4}, start partition, seed): every set partition '
-                      'of n<=5 nodes as the start on random small graphs, random graphs n=4..12 (undirected / directed incl. sparse adversarial / '
-                      'signed incl. all-positive and all-negative, self-loops sometimes) with random starts, given-partition calls of '
-                      'modularity_und/_dir/_und_sign, an asymmetric malformed stream for the _und routines; non-trivial = distinct case in '
-                      'which the routine returned a partition different from its start (optimisers) or a partition with >= 2 modules')
+    ck.cov['rule'] = ('cases = (routine, objective/qtype, integer weight matrix, gamma, start partition, seed, storage): every set partition of n<=5 nodes '
+                      'as the start on random small graphs; random graphs n=4..12 (undirected / directed incl. sparse adversarial / signed incl. all-positive '
+                      'and all-negative, self-loops sometimes) with random starts, gamma in {3/4,1,5/4}; cross-routine starts (gamma also 4/5,6/5,13/10); '
+                      'scale axis W*2^e; mixed-sign positive-total input for the UND/DIR routines, n in {1,2}, gamma in {0,1/2,2,3,10}; storage '
+                      'bool/uint8/int32/int64/float32/Fortran order; given-partition and kci=None calls of modularity_und/_dir/_und_sign; object-reuse and '
+                      'call-history probes; an asymmetric malformed stream for the _und routines; the list is shuffled before it is distributed. '
+                      'non-trivial = distinct case in which the routine returned a partition different from its start (optimisers) or with >= 2 modules')
     ck.assumptions += ['total weight positive (signed routines: at least one nonzero weight; community_louvain negative_*: positive weights present and sum(W) != 0)',
                        '_und routines are fed symmetric matrices (asymmetric ones only in the malformed stream, no claim)',
-                       'integer weights and dyadic gamma: float gains are exact multiples far from the 1e-10 threshold; comparisons of q use 1e-9',
-                       'calls that hit the watchdog are counted as timeouts, not violations']
+                       'integer weights: float arithmetic on them is exact; q is compared at 1e-9 (1e-5 for float32 storage)',
+                       'the move-by-move replay needs dyadic gamma, unscaled weights and double precision; other runs are judged by the predicates and the q correspondence',
+                       'in-domain calls that hit the watchdog are re-tried once with 10x the budget, then counted; more than max(3, 0.5% of the cases) is a break']
     ok = ck.lean_gate(['BctVerif.Props.' + pid], extra_modules=['BctVerif.Model.Modularity'])
     if ck.tier == 'thorough' and ok:
         ck.leanchecker(['BctVerif.Props.' + pid, 'BctVerif.Model.Modularity'])
@@ -1239,7 +1334,9 @@ def run_check(ck, preds):
             # spectral path: the model bisects with the recorded eigen-solver decisions
             slines.append('spectral kind=%s n=%d W=%s gamma=%s oracle=%s' % (kind_of(c), len(c['W']), rat_list(c['W']), c['gamma'], ','.join(r['oracle']) or '-'))
             sidx.append(n_)
-        if c['routine'] in REPLAY_OPS and c.get('scale') and not c.get('replay_ok'):
+        if c['routine'] in REPLAY_OPS and c.get('variant') == 'float32':
+            ck.count('replay_skipped_float32')    # single-precision rounding decides ties differently; predicates (1e-5) + q correspondence only
+        elif c['routine'] in REPLAY_OPS and c.get('scale') and not c.get('replay_ok'):
             ck.count('replay_skipped_scaled')     # absolute thresholds are not scale invariant: predicates only
         elif c['routine'] in REPLAY_OPS and _dyadic(c['gamma']):
             rlines.append(replay_line(c, r)); ridx.append(n_)
@@ -1266,7 +1363,7 @@ def run_check(ck, preds):
                     lab = sorted(set(src)); want = [lab.index(x) + 1 for x in src]
                     if [int(x) for x in d['relabel'].split(',')] != want or int(d['k']) != len(lab):
                         bad = 'relabel'
-                    elif not close(q, Fr(d['qcode'])):
+                    elif not close(q, Fr(d['qcode']), case_tol(c)):
                         bad = 'coded closed form vs reported q'
                     elif Fr(d['qdef']) != Fr(d['qcode']) and (is_sym(c['W']) or kind_of(c) in ('dir', 'obj')):
                         bad = 'closed form vs definition'
@@ -1283,7 +1380,7 @@ def run_check(ck, preds):
                 c, r = cases[n_], results[n_]
                 d = kv(o)
                 (ci, q), = r['levels']
-                if 'ci' not in d or [int(x) for x in d['ci'].split(',')] != [int(x) for x in ci] or not close(q, Fr(d['q'])) or d.get('left') != '0':
+                if 'ci' not in d or [int(x) for x in d['ci'].split(',')] != [int(x) for x in ci] or not close(q, Fr(d['q']), case_tol(c)) or d.get('left') != '0':
                     ns += 1
                     if ns <= 3:
                         ck.corr_break('Modularity spectral path vs bct.' + c['routine'], {'case': c, 'oracle': r['oracle'], 'model': o[:300], 'impl': [ci, q]})
@@ -1294,7 +1391,7 @@ def run_check(ck, preds):
                 if ml is None:
                     return 'error:' + str(d.get('error')), d
                 if c['routine'] in HIER:
-                    v = _cmp_levels(r['levels'], ml[1:])
+                    v = _cmp_levels(r['levels'], ml)        # the model lists exactly the hierarchy levels (q[0] = -inf is never a level)
                     if v == 'same' and r.get('plain') is not None:
                         v = _cmp_levels([r['plain']], [ml[-1]])
                 else:
